@@ -10,9 +10,8 @@ package c08
 import (
 	_ "embed"
 	"fmt"
-	"os"
-	"time"
-	"strconv"
+	"runtime"
+	"runtime/debug"
 	"strings"
 
 	"go.starlark.net/starlark"
@@ -29,7 +28,7 @@ func init() {
 	driver.Register(&driver.Engine{
 		ID: "C08", Level: "exploration",
 		Rule: "Part A: all 280 signatures (<=3 positional required/optional, none|*|*args, <=2 keyword-only required/optional, optional **kwargs) x calls " +
-			"(0-4 positional values, subset and order of 7 names a,b,c,k,m,u,v as named arguments, *seq in {absent, list|tuple|range of length 0-3, int, string}, " +
+			"(0-4 positional values, every subset of the 7 names a,b,c,k,m,u,v as named arguments (written forward or reversed, alternating), *seq in {absent, list|tuple|range of length 0-3, int, string}, " +
 			"**dict in 11 shapes incl. duplicates of positional/named arguments, undeclared keys, non-string keys, non-mapping); quick = weighted sample of ~150 calls per signature, " +
 			"thorough = the full product (exhaustive for that sub-space). Each call runs from source and through starlark.Call and is judged by an independent binder and by CPython. " +
 			"Part B: all 121 marker sequences (name, name?, name??) over <=4 parameters x positional count 0..n+1 x named subsets (+unknown, +duplicate) x sampled target types and argument kinds for UnpackArgs, " +
@@ -91,8 +90,8 @@ type engine struct {
 	sigs []*sig
 	py   *driver.Py
 
-	counts map[string]int              // local counters, flushed to the driver after every case
-	covers map[[2]string]struct{}      // cover items already reported by this process
+	counts map[string]int         // local counters, flushed to the driver after every case
+	covers map[[2]string]struct{} // cover items already reported by this process
 }
 
 func (e *engine) count(name string, n int) { e.counts[name] += n }
@@ -120,6 +119,8 @@ func mix64(x uint64) uint64 {
 }
 
 func run(c *driver.Ctx) {
+	debug.SetGCPercent(200) // small heaps: fewer collections
+	runtime.GOMAXPROCS(2)   // one child per core already; avoids 16x16 GC worker threads
 	installHook()
 	e := &engine{c: c, sp: newSpace(), sigs: allSigs(), counts: map[string]int{}, covers: map[[2]string]struct{}{}}
 	py, err := driver.StartPy(refPy)
@@ -140,18 +141,9 @@ func run(c *driver.Ctx) {
 	}
 	c.Cover("python_version", initResp.Version)
 
-	t0 := time.Now()
 	e.staticSuite()
 	e.partA()
-	t1 := time.Now()
 	e.partB()
-	if os.Getenv("C08_TIMING") != "" {
-		if f, err := os.OpenFile(os.Getenv("C08_TIMING"), os.O_APPEND|os.O_CREATE|os.O_WRONLY, 0o644); err == nil {
-			fmt.Fprintf(f, "shard %d: A %.2fs B %.2fs\n", c.Shard, t1.Sub(t0).Seconds(), time.Since(t1).Seconds())
-			f.Close()
-		}
-	}
-
 	for i := 1; i < len(opNames); i++ {
 		c.Count("op_"+opNames[i], int(opCounts[i]))
 	}
@@ -171,11 +163,7 @@ func (e *engine) partA() {
 			c.Inconclusive("enumeration size mismatch: %d vs %d", len(all), e.sp.size())
 			return
 		}
-		sigs := e.sigs
-		if n, _ := strconv.Atoi(os.Getenv("C08_SIGLIMIT")); n > 0 {
-			sigs = sigs[:n]
-		}
-		for _, s := range sigs {
+		for _, s := range e.sigs {
 			for lo := 0; lo < len(all); lo += chunkSize {
 				hi := min(lo+chunkSize, len(all))
 				if !c.Take() {
@@ -289,6 +277,9 @@ func classify(err error) string {
 		return "starstar-not-mapping"
 	case strings.Contains(msg, "keywords must be strings"):
 		return "non-string-keyword"
+	case strings.Contains(msg, "referenced before assignment"):
+		// raised by the body of f: the binding phase let the call through with a parameter left unset
+		return "unbound-parameter-in-body"
 	}
 	return "other"
 }
@@ -364,7 +355,8 @@ func (e *engine) runChunk(s *sig, calls []call) {
 	var presp struct {
 		Res []string `json:"res"`
 	}
-	if err := e.py.Call(req, &presp); err != nil || len(presp.Res) != len(calls) {
+	err := e.py.Call(req, &presp)
+	if err != nil || len(presp.Res) != len(calls) {
 		c.Inconclusive("python reference failed on %q: %v (%d results)", def, err, len(presp.Res))
 		return
 	}
@@ -388,6 +380,12 @@ func (e *engine) runChunk(s *sig, calls []call) {
 			e.count("A_err_"+errc, 1)
 			if errc == "other" {
 				c.Inconclusive("unclassified call error %q for %s / %s", r.err, def, sp.src(cl))
+			}
+			if errc == "unbound-parameter-in-body" {
+				// f only returns its parameters, so this error can only mean that the call was accepted
+				// and the body ran with an unset parameter: a binding the specification never produces.
+				c.Violation("C08 starlark function body entered with unbound parameter",
+					fmt.Sprintf("%s ; %s => %v", def, sp.src(cl), r.err), map[string]any{"def": def, "call": sp.src(cl), "error": fmt.Sprint(r.err), "binder": wantS})
 			}
 		}
 		e.cover("outcome_by_callmode", mode+okS)
@@ -459,7 +457,7 @@ func (e *engine) runChunk(s *sig, calls []call) {
 			}
 		}
 
-		if c.Shard%2 == 0 && c.WantSample() && (i%37 == 5) {
+		if c.Shard%2 == 0 && c.WantSample() && ((r.ok && i%5 == 3) || i%149 == 111) {
 			c.Sample(map[string]any{"part": "A", "def": def, "call": sp.src(cl), "starlark": gotS, "starlark.Call": directS, "binder": wantS, "python": pyS})
 		}
 	}
